@@ -34,7 +34,8 @@ def draw_name(ch, cat, label):
     combining marks (every mark the NFC quick-check treats specially: U+0300 itself, marks that reorder, Hangul jamo), in
     composed or decomposed spelling."""
     if ch.chance(cat, ("name-hot",) + tuple(label), 0.35):
-        return ch.pick(cat, ("name-h",) + tuple(label), ["a", "b", "c"])      # few names, so that operations meet on them
+        # few names, so that operations meet on them -- one of them in both of its spellings
+        return ch.pick(cat, ("name-h",) + tuple(label), ["a", "b", "c", "\u00e9", "e\u0301"])
     if ch.chance(cat, ("name-fixed",) + tuple(label), 0.45):
         return ch.pick(cat, ("name",) + tuple(label), NAMES)
     out = ""
